@@ -775,7 +775,8 @@ func (w *worker) checkCompose(c *selCase, m Mode, kinds string, raw []byte) {
 			concat = append(concat, part.Vals...)
 		}
 		if snap(doc) != before {
-			w.count("skipped:doc-modified", 1)
+			// one of the three retrievals of the law changed the document the others read: they cannot compose
+			w.viol("C08", "composition-law", "$"+stepsText(steps), before, fmt.Sprintf("P=%s Q=%s: the document reads %s after the retrievals of the law", ptext, qtext, snap(doc)), kinds, raw)
 			return
 		}
 		ok := true
@@ -1002,6 +1003,30 @@ func (w *worker) checkOrder(c *selCase, text, kinds string, raw []byte) {
 							w.viol("C07", "order-differs", text+" (read through accessors)", snap(doc), fmt.Sprintf("map built with insertion order #%d, evaluation %d: want %s, the accessors read %s", mo, rep, expString(c.Res), snap(got)), fmt.Sprintf("keys=%d", nkeys), raw)
 							return
 						}
+					}
+				}
+			}
+			// the caller replaces one member of the SAME map object (same address, same number of members) and calls the
+			// same parsed function again: the result must be that of a freshly parsed function on a freshly built equal map
+			if rep == 3 {
+				if dm, okm := doc.(map[string]interface{}); okm && len(dm) >= 2 {
+					keys := make([]string, 0, len(dm))
+					for k := range dm {
+						keys = append(keys, k)
+					}
+					sort.Strings(keys)
+					delete(dm, keys[len(keys)/2])
+					dm["\x7fnew"] = "NEW"
+					r1 := safeCall(f, dm)
+					cp := make(map[string]interface{}, len(dm))
+					for k, v := range dm {
+						cp[k] = v
+					}
+					r2 := safeCall(safeParse(text, &ocfg).F, cp)
+					w.count("C07:evaluations-after-an-edit-in-place", 1)
+					if r1.String() != r2.String() {
+						w.viol("C07", "order-differs", text+" (after the caller replaced a member of the same map)", snap(dm), fmt.Sprintf("the parsed function used before returns %s, a freshly parsed one on an equal map %s", r1, r2), fmt.Sprintf("keys=%d", nkeys), raw)
+						return
 					}
 				}
 			}
